@@ -171,7 +171,20 @@ pub fn bfs<S: Sys>(sys: &S, threads: usize, caps: &Caps, cx: &mut Ctx) -> BfsOut
                             lcx.here.path_idx.clone_from(&path);
                             lcx.here.path.clone_from(&names);
                             lcx.here.op_idx = op as u32;
-                            let out = sys.run(&path, Some(op as u32), &mut lcx);
+                            let out = match std::panic::catch_unwind(std::panic::AssertUnwindSafe(|| sys.run(&path, Some(op as u32), &mut lcx))) {
+                                Ok(o) => o,
+                                Err(e) => {
+                                    // a panic outside the judged call: the container's own API panicked
+                                    // while being observed or torn down
+                                    let msg = panic_text(e);
+                                    lcx.quiet = false;
+                                    lcx.here.op = sys.op_name(op);
+                                    let en = lcx.enabled;
+                                    lcx.violate(en, format!("the container panicked while being observed after the call: {msg}"));
+                                    tr += 1;
+                                    continue;
+                                }
+                            };
                             if out.before != states_ref[s].snap {
                                 lcx.machinery(format!(
                                     "replay divergence: state {} expected {} got {} (path {:?})",
@@ -263,7 +276,12 @@ where
                 let a = c * chunk;
                 let b = (a + chunk).min(n);
                 for s in a..b {
-                    f(s, &mut lcx);
+                    if let Err(e) = std::panic::catch_unwind(std::panic::AssertUnwindSafe(|| f(s, &mut lcx))) {
+                        let msg = panic_text(e);
+                        lcx.quiet = false;
+                        let en = lcx.enabled;
+                        lcx.violate(en, format!("the container panicked while being observed: {msg}"));
+                    }
                 }
                 results_mx.lock().unwrap()[c] = Some(lcx);
             });
@@ -397,4 +415,16 @@ pub fn explore_and_report<S: Sys>(
     rep.transitions += out.transitions;
     rep.cx.merge(cx);
     out
+}
+
+pub fn panic_text(e: Box<dyn std::any::Any + Send>) -> String {
+    if let Some(s) = e.downcast_ref::<&'static str>() {
+        (*s).to_string()
+    } else if let Some(s) = e.downcast_ref::<String>() {
+        s.clone()
+    } else if e.downcast_ref::<crate::payload::Injected>().is_some() {
+        "injected panic escaped".to_string()
+    } else {
+        "<non-string panic payload>".to_string()
+    }
 }
